@@ -1,6 +1,6 @@
 SPECIFICATION Spec
-CONSTANT Cfg <- MCCfg1s
-CONSTANT MaxWalls = 2
+CONSTANT Cfg <- MCCfg2x
+CONSTANT MaxWalls = 0
 CONSTANT Limits = {2}
 CONSTANT PostSteps = 1
 CONSTRAINT Bounded
